@@ -414,6 +414,8 @@ int main(int argc, char** argv) {
     const long salt        = H.paramInt("salt", 0);
     const long onlyShape   = H.paramInt("shape", -1);
     const long onlyN       = H.paramInt("n", -1);
+    // experiment only (not used by the spec): drive the asynchronous loop under an enforced metadata mode as well
+    const bool asyncModes  = H.paramInt("asyncmodes", 0) != 0;
     const bool streaming   = H.paramInt("streaming", 1) != 0; // ginger/fennel/sugar policies
 
     for (long k = H.firstCase(); k < H.endCase(); ++k) {
@@ -565,10 +567,11 @@ int main(int argc, char** argv) {
           const FieldVT& F = fieldVT(c.field);
           if (!c.cont) {
             // asynchronous execution: bitset, automatic metadata mode (see SPEC assumptions), idempotent reductions
-            if (c.bitset && F.asyncOK && mode == 0 && rr.chance(1, 3))
+            const bool modeOK = mode == 0 || (asyncModes && mode != 4); // onlyData sends everything every call by design
+            if (c.bitset && F.asyncOK && modeOK && rr.chance(1, 3))
               c.async = true;
             if (onlyAsync >= 0)
-              c.async = onlyAsync && c.bitset && F.asyncOK && mode == 0;
+              c.async = onlyAsync && c.bitset && F.asyncOK && modeOK;
           }
           c.density = (unsigned)rr.below(NUM_DN);
           if (rr.chance(1, 6))
@@ -703,6 +706,7 @@ int main(int argc, char** argv) {
             ++O.delayed_syncs;
           unsigned long msgs0 = net.reportSendMsgs(), bytes0 = net.reportSendBytes();
           unsigned iterations = 0;
+          int verdictAsync    = 1;
           if (!c.async) {
             doWrites(0);
             if (c.bitset && mode == 0) {
@@ -733,6 +737,8 @@ int main(int argc, char** argv) {
             // the calls that send are <= 6 x all proxies, each sends <= 2 x (hosts-1) messages. Far beyond that the
             // substrate re-sends without any update: the phase can never become quiescent.
             const unsigned long sendBound = 64ul * np * (T.totalProxies + 64);
+            unsigned notices = 0;
+            bool resendReported = false;
             do {
               dga.reset();
               if (iterations < c.waves) {
@@ -745,24 +751,75 @@ int main(int argc, char** argv) {
               ++iterations;
               ++O.async_sync_calls;
               progress();
-              if (net.reportSendMsgs() - msgs0 > sendBound) {
-                std::string what = "asynchronous sync keeps sending messages although no value can change any more";
-                if (log) {
-                  H.violation(std::string("C18:sync:async-resends-without-updates:") + redName(F.red),
-                              J().kv("round", rd).kv("field", F.name).kv("write", wlocName(c.W)).kv("read", rlocName(c.R))
-                                  .kv("host", (unsigned)g_rank).kv("messages_sent", (uint64_t)(net.reportSendMsgs() - msgs0))
-                                  .kv("bound", (uint64_t)sendBound).kv("sync_calls", iterations).kv("what", what).str());
-                  fflush(H.out);
+              // ---- logical liveness verdict (no wall clock): see sendBound above. Every rank tells rank 0 (plain MPI,
+              // private communicator) when it passes the bound and again at 8 x the bound; rank 0 records the
+              // violation at the first notice and gives the phase up at the second (exit code 3 = liveness
+              // violation already recorded, the driver goes on with the next case).
+              {
+                unsigned long sent = net.reportSendMsgs() - msgs0;
+                unsigned long note[3] = {0, sent, (unsigned long)iterations};
+                if (notices < 1 && sent > sendBound)
+                  note[0] = 1;
+                else if (notices < 2 && sent > 8 * sendBound)
+                  note[0] = 2;
+                int who = g_rank;
+                if (note[0] && !log) {
+                  MPI_Send(note, 3, MPI_UNSIGNED_LONG, 0, 18, g_comm);
+                  ++notices;
+                  note[0] = 0;
                 }
-                // the driver's crash classifier reads this line when another rank than 0 notices
-                fprintf(stderr, "c18_gluon: Assertion `%s' failed (rank %d, field %s, %lu messages > bound %lu)\n", what.c_str(),
-                        g_rank, F.name, (unsigned long)(net.reportSendMsgs() - msgs0), sendBound);
-                fflush(stderr);
-                _exit(4);
+                if (log) {
+                  if (note[0])
+                    ++notices;
+                  else {
+                    int flag = 0;
+                    MPI_Status st;
+                    MPI_Iprobe(MPI_ANY_SOURCE, 18, g_comm, &flag, &st);
+                    if (flag) {
+                      MPI_Recv(note, 3, MPI_UNSIGNED_LONG, st.MPI_SOURCE, 18, g_comm, MPI_STATUS_IGNORE);
+                      who = st.MPI_SOURCE;
+                    }
+                  }
+                  if (note[0] >= 1 && !resendReported) {
+                    resendReported = true;
+                    verdictAsync   = 0;
+                    H.violation(std::string("C18:sync:async-resends-without-updates:") + (mode == 0 ? "auto" : "enforced-metadata-mode"),
+                                J().kv("round", rd).kv("field", F.name).kv("reduction", redName(F.red)).kv("enforcedMode", modeName(mode))
+                                    .kv("write", wlocName(c.W)).kv("read", rlocName(c.R)).kv("host", who).kv("messages_sent", (uint64_t)note[1]).kv("bound", (uint64_t)sendBound)
+                                    .kv("sync_calls", (uint64_t)note[2])
+                                    .kv("what", "asynchronous sync keeps sending messages although no value can change any more: "
+                                                "the phase cannot become quiescent").str());
+                  }
+                  if (note[0] >= 2) {
+                    fflush(H.out);
+                    fprintf(stderr, "c18_gluon: giving up the asynchronous phase of case %ld round %u (rank %d sent %lu messages, bound %lu)\n",
+                            k, rd, who, note[1], sendBound);
+                    _exit(3);
+                  }
+                }
               }
             } while (dga.reduce(sub.get_run_identifier()));
             ++O.async_rounds;
             MPI_Barrier(g_comm); // DTerminationDetector.h: "caller will call getHostBarrier().wait() if required"
+            if (log) { // notices that arrived after rank 0 left the loop
+              int flag = 1;
+              while (flag) {
+                MPI_Status st;
+                MPI_Iprobe(MPI_ANY_SOURCE, 18, g_comm, &flag, &st);
+                if (flag) {
+                  unsigned long note[3];
+                  MPI_Recv(note, 3, MPI_UNSIGNED_LONG, st.MPI_SOURCE, 18, g_comm, MPI_STATUS_IGNORE);
+                  if (!resendReported) {
+                    resendReported = true;
+                    verdictAsync   = 0;
+                    H.violation(std::string("C18:sync:async-resends-without-updates:") + (mode == 0 ? "auto" : "enforced-metadata-mode"),
+                                J().kv("round", rd).kv("field", F.name).kv("host", (int)st.MPI_SOURCE)
+                                    .kv("messages_sent", (uint64_t)note[1]).kv("bound", (uint64_t)sendBound)
+                                    .kv("what", "asynchronous sync sent far more messages than updates existed").str());
+                  }
+                }
+              }
+            }
           }
           progress();
           O.net_msgs += net.reportSendMsgs() - msgs0;
@@ -915,6 +972,8 @@ int main(int argc, char** argv) {
               }
             }
           }
+          if (!verdictAsync)
+            verdict = 0;
           MPI_Bcast(&verdict, 1, MPI_INT, 0, g_comm);
           MPI_Bcast(lastExpected.data(), (int)lastExpected.size(), MPI_UINT64_T, 0, g_comm);
           ++O.rounds;
